@@ -42,3 +42,99 @@ func zzC19_gray_gray() {
 	}
 	zzReached("end")
 }
+
+// C19 (c) - 2-D wiring of DCT2DHash64: flattens[8*v+u] is entry v of the transform of column u of the row-transformed
+// image, for the 8x8 low-frequency block. Both sides use the real 1-D kernel on the same 4096 symbolic inputs; the
+// obligation is equality of the resulting terms.
+func zzC19_wiring64() {
+	zzIgnoreZeroSign()
+	in := zzF64s("x", 64*64)
+	work := append([]float64{}, in...)
+	got := DCT2DHash64(&work)
+	rows := make([][]float64, 64)
+	for y := 0; y < 64; y++ {
+		r := append([]float64{}, in[64*y:64*y+64]...)
+		forwardDCT64(r)
+		rows[y] = r
+	}
+	for u := 0; u < 8; u++ {
+		col := make([]float64, 64)
+		for y := 0; y < 64; y++ {
+			col[y] = rows[y][u]
+		}
+		forwardDCT64(col)
+		for v := 0; v < 8; v++ {
+			zzAssert(zzSameTerm(got[8*v+u], col[v]), "DCT2DHash64: flattens[8v+u] is coefficient (u,v) of the separable 2-D transform")
+		}
+	}
+	zzReached("end")
+}
+
+// C19 (d) - the threshold: for an odd number of values quickSelectMedian returns the value of rank n/2; for an even
+// number (the hashes use 64 and 256) it returns a/2 + b/2 where b is the value of rank n/2 (the upper median) and a is
+// another of the values with a <= b - "a threshold at or just below the median". n = 2..5; the float order is exact on
+// the bit patterns, NaN excluded; MedianOfPixels does not modify its argument. (n = 6 does not finish: one query over six 64-bit keys.)
+func zzRankIs(q []float64, b float64, k int) bool {
+	less, leq := 0, 0
+	for i := range q {
+		less += zzB2I(q[i] < b)
+		leq += zzB2I(q[i] <= b)
+	}
+	return less <= k && leq > k
+}
+
+func zzC19_median_N() int { return 4 }
+func zzC19_median() {
+	n := 2 + zzPart()
+	p := zzF64s("p", n)
+	q := append([]float64{}, p...)
+	m := MedianOfPixels(p)
+	for i := 0; i < n; i++ {
+		zzAssert(zzF64bits(p[i]) == zzF64bits(q[i]), "MedianOfPixels leaves its argument unchanged")
+	}
+	if n%2 == 1 {
+		found := 0
+		for i := 0; i < n; i++ {
+			found += zzB2I(zzF64bits(q[i]) == zzF64bits(m))
+		}
+		zzAssert(found > 0 && zzRankIs(q, m, n/2), "odd count: the median is the value of rank n/2")
+	} else {
+		ok := 0
+		for i := 0; i < n; i++ {
+			for j := 0; j < n; j++ {
+				if i != j {
+					if zzSameTerm(m, q[i]/2+q[j]/2) {
+						ok += zzB2I(q[i] <= q[j] && zzRankIs(q, q[j], n/2))
+					}
+				}
+			}
+		}
+		zzAssert(ok > 0, "even count: the threshold is a/2 + b/2 with b the upper median and a another value not above it")
+	}
+	zzReached("end")
+}
+
+// the same for the 256-bit hash: flattens[16*v+u], 16x16 block of the 256x256 transform (65536 symbolic inputs)
+func zzC19_wiring256() {
+	zzIgnoreZeroSign()
+	in := zzF64s("x", 256*256)
+	work := append([]float64{}, in...)
+	got := DCT2DHash256(&work)
+	rows := make([][]float64, 256)
+	for y := 0; y < 256; y++ {
+		r := append([]float64{}, in[256*y:256*y+256]...)
+		forwardDCT256(r)
+		rows[y] = r
+	}
+	for u := 0; u < 16; u++ {
+		col := make([]float64, 256)
+		for y := 0; y < 256; y++ {
+			col[y] = rows[y][u]
+		}
+		forwardDCT256(col)
+		for v := 0; v < 16; v++ {
+			zzAssert(zzSameTerm(got[16*v+u], col[v]), "DCT2DHash256: flattens[16v+u] is coefficient (u,v) of the separable 2-D transform")
+		}
+	}
+	zzReached("end")
+}
